@@ -18,6 +18,7 @@ from __future__ import annotations
 
 import datetime
 import logging
+import math
 from typing import Iterable, List, Optional, Sequence, Tuple, Union
 
 from absl import logging
@@ -697,12 +698,15 @@ class TrialConverter:
 
     if pytrial.creation_time is not None:
       creation_secs = datetime.datetime.timestamp(pytrial.creation_time)
-      proto.start_time.seconds = int(creation_secs)
-      proto.start_time.nanos = int(1e9 * (creation_secs - int(creation_secs)))
+      # Timestamp.nanos counts forward in time, also before the epoch.
+      whole_secs = math.floor(creation_secs)
+      proto.start_time.seconds = whole_secs
+      proto.start_time.nanos = int(1e9 * (creation_secs - whole_secs))
     if pytrial.completion_time is not None:
       completion_secs = datetime.datetime.timestamp(pytrial.completion_time)
-      proto.end_time.seconds = int(completion_secs)
-      proto.end_time.nanos = int(1e9 * (completion_secs - int(completion_secs)))
+      whole_secs = math.floor(completion_secs)
+      proto.end_time.seconds = whole_secs
+      proto.end_time.nanos = int(1e9 * (completion_secs - whole_secs))
     if pytrial.infeasibility_reason is not None:
       proto.infeasible_reason = pytrial.infeasibility_reason
     if pytrial.metadata is not None:
